@@ -60,7 +60,7 @@ def gen_case(rng, tier, index):
         # the directory reached through a symbolic link; files created before the context is entered; a second,
         # independent pool alive at the same time
         return {"kind": "tmp-single", "ops": steps, "via_symlink": rng.random() < 0.25,
-                "pre_create": rng.choice([0, 0, 0, 1, 2]), "companion": rng.random() < 0.3}
+                "pre_create": rng.choice([0, 0, 0, 1, 2]), "companion": rng.random() < 0.3, "relative_dir": rng.random() < 0.2}
     if k < 7:
         children = []
         for _ in range(rng.randint(1, 3)):
@@ -82,7 +82,7 @@ def gen_case(rng, tier, index):
     nfiles = rng.randint(0, 6)
     files = [rng.randrange(5) for _ in range(nfiles)]
     return {"kind": "filepool", "files": files, "mode": rng.choice(["r", "rb", "w", "a", "r+", "ab", "wb"]),
-            "devnull": rng.random() < 0.3, "failed_first_enter": rng.random() < 0.3, "files_form": rng.choice(["list", "list", "tuple", "gen", "iter", "map", "dict_keys"]),
+            "devnull": rng.random() < 0.3, "odd_spellings": rng.random() < 0.3, "failed_first_enter": rng.random() < 0.3, "files_form": rng.choice(["list", "list", "tuple", "gen", "iter", "map", "dict_keys"]),
             "ops": [[rng.choice(["get", "len", "iter", "write_or_read", "write_or_read", "close_one"]), rng.randrange(1 << 16)]
                     for _ in range(rng.randint(0, 6))]}
 
@@ -176,6 +176,13 @@ def _tmp_single_once(case, steps, route, res):
             fail("files-vs-listing", f"after {desc}: directory holds {on_disk}, created-and-not-removed are {expect_disk}")
 
     def body(pool):
+        try:
+            return body2(pool)
+        finally:
+            if case.get("relative_dir"):
+                os.chdir("/")       # the body ends somewhere else than it started; what was created is removed all the same
+
+    def body2(pool):
         state["ext_deleted"] = set()
         stop_at = int(route.split("@")[1]) if route.startswith("raise") else None
         for j, (op, a) in enumerate(steps + [["end", 0]]):
@@ -287,7 +294,20 @@ def _tmp_single_once(case, steps, route, res):
                          f"left in its directory after its own exit: {os.listdir(cd)}")
 
     def run_main():
-        pool_obj = TmpPool(pool_dir)
+        cwd0 = os.getcwd()
+        if case.get("relative_dir"):
+            # the pool is given a relative directory; the body changes the current directory later on
+            os.chdir(os.path.dirname(pool_dir))
+            pool_obj = TmpPool(os.path.basename(pool_dir))
+            res.count("tmp_single_runs_with_a_relative_directory")
+        else:
+            pool_obj = TmpPool(pool_dir)
+        try:
+            run_main2(pool_obj)
+        finally:
+            os.chdir(cwd0)
+
+    def run_main2(pool_obj):
         for _ in range(case.get("pre_create", 0)):
             # files created before the context is entered are the pool's files like any other
             p0 = pool_obj.create()
@@ -307,6 +327,8 @@ def _tmp_single_once(case, steps, route, res):
             if os.listdir(d):
                 fail("exit-leaves-files", f"after leaving the context the directory holds {os.listdir(d)[:3]}")
             state["listed"] = []
+            if case.get("relative_dir"):
+                os.chdir(os.path.dirname(pool_dir))     # back where the relative directory means the pool's directory
             with pool_obj as pool:
                 observe(pool, "second enter")
                 p2 = pool.create()
@@ -668,6 +690,11 @@ def run_filepool(case, res):
         with open(p, "w") as f:
             f.write("seed line\n")
     paths = [names[i] for i in case["files"]]
+    if case.get("odd_spellings"):
+        # the same files named in ways that are not the shortest spelling: a path is a key exactly as it was given
+        paths = [[p, os.path.join(d, ".", os.path.basename(p)), d + "//" + os.path.basename(p), os.path.join(d, "sub", "..", os.path.basename(p))][k % 4]
+                 for k, p in enumerate(paths)]
+        os.makedirs(os.path.join(d, "sub"), exist_ok=True)
     mode = case["mode"]
     if case.get("devnull") and mode not in ("r", "rb"):
         paths = paths[:1] + ["/dev/null"] + paths[1:]      # a non-regular file among the pool's files
